@@ -1,5 +1,5 @@
 From Coq Require Import List NArith Arith Permutation Sorted.
-From SK Require Import lib.LGraph lib.Mono model.C11_Model proof.C11_Aut proof.C11_WL proof.C11_Dedup proof.C11_Main proof.C11_Comp proof.C11_VF2 proof.C11_Vocab proof.C11_Sig proof.C11_Anchor model.C11_State proof.C11_StateProof model.C11_Partial proof.C11_PartialProof proof.C11_PruneClass proof.C11_WLPart proof.C11_Idem model.C11_Keys model.C11_Attr proof.C11_AttrProof model.C11_Orbit proof.C11_OrbitProof proof.C11_Extend model.C11_Order proof.C11_OrderProof model.C11_Views proof.C11_ViewsProof proof.C11_Singleton proof.C11_Count proof.C11_WLMono model.C11_AttrFull proof.C11_Subset model.C11_State2 proof.C11_State2Proof model.C11_Attr3 proof.C11_Attr3Proof model.C11_Image proof.C11_ImageProof.
+From SK Require Import lib.LGraph lib.Mono model.C11_Model proof.C11_Aut proof.C11_WL proof.C11_Dedup proof.C11_Main proof.C11_Comp proof.C11_VF2 proof.C11_Vocab proof.C11_Sig proof.C11_Anchor model.C11_State proof.C11_StateProof model.C11_Partial proof.C11_PartialProof proof.C11_PruneClass proof.C11_WLPart proof.C11_Idem model.C11_Keys model.C11_Attr proof.C11_AttrProof model.C11_Orbit proof.C11_OrbitProof proof.C11_Extend model.C11_Order proof.C11_OrderProof model.C11_Views proof.C11_ViewsProof proof.C11_Singleton proof.C11_Count proof.C11_WLMono model.C11_AttrFull proof.C11_Subset model.C11_State2 proof.C11_State2Proof model.C11_Attr3 proof.C11_Attr3Proof model.C11_Image proof.C11_ImageProof proof.C11_Lone.
 Import ListNotations.
 
 (** Vocabulary (definitions in proof/C11_Aut.v, written out here for the reader):
@@ -711,3 +711,15 @@ Theorem C11_prune_same_images :
     (forall raw' : list mapping, dom_ok rc raw' = true -> images_ok rc raw' = true).
 Proof. exact prune_same_images_all. Qed.
 Print Assumptions C11_prune_same_images.
+
+(** Lone atoms (round 5, after the seeded change C11-w4-1, which analysed the lone atoms of a salt or of implicit-hydrogen
+    water together with the one bonded molecule and thereby exchanged equally labelled lone atoms): a component that is a
+    single atom is an orbit of its own; every counted automorphism fixes it; a graph of lone atoms only has exactly one
+    counted automorphism - however many of them carry the same label (component swaps excluded). *)
+Theorem C11_lone_atoms_fixed :
+  forall (fn : nlab -> N) (fe : elab -> N) (g : graph), wf g ->
+    (forall u o, In [u] (components g) -> In o (a_orbits (analyze fn fe g)) -> In u o -> forall v, In v o <-> v = u) /\
+    (forall m, In m (filter (keepsb g) (auts fn fe g)) -> forall u, In [u] (components g) -> app_map m u = u) /\
+    ((forall c, In c (components g) -> exists u, c = [u]) -> a_count (analyze fn fe g) = 1%N).
+Proof. exact lone_atoms_fixed. Qed.
+Print Assumptions C11_lone_atoms_fixed.
